@@ -6,6 +6,12 @@ layouts (Pile / Columns / Overlay / ListBox scrolling / LineBox / Filler / the i
 or a SolidFill as the top-most widget), any mix of kitty, iterm2 and block image widgets
 (the same widget possibly several times on screen), widget construction and garbage
 collection in between, redraws of the same canvas, clear(), a redraw whose inner draw raises;
+EVERY VALID WIDGET: format specifiers with alignments, alpha and the style-specific fields of the
+image's render style (kitty: L|W, z<n>, m0|1, c<0-9>; iterm2: L|W, m0|1, c<0-9>), upscale or not;
+REDRAWS THAT URWID ABORTS OR SHORT-CIRCUITS: a real SIGWINCH pending (urwid does not draw until
+get_input() has reported the resize), the base class' draw_screen raising at once / inside the
+canvas' content() / at one of its writes, and draw_screen() of a canvas object drawn earlier
+(the cached identical canvas) after such an aborted redraw;
 terminal identity kitty / konsole / other; and EVERY WAY THE SCREEN IS STARTED: with the
 alternate buffer or without it (urwid's inline mode), repeated stop()/start() cycles changing
 the mode, a new screen object for a new cycle, on a terminal that already holds image
@@ -15,13 +21,15 @@ sessions).  Every step's output is lexed
 (model/ScreenTie.v) and compared with (a) the model, (b) the specification computed from
 the canvas just drawn (its rows, read back through canvas.content(), written on an empty
 terminal).  code >= 2 = a ghost image / a missing image line / an unbracketed redraw /
-wrong view positions / z-index clash / exception = property failure; the session is
+wrong view positions / z-index clash / a placement transmitted with a z-index other than its widget's /
+tracking out of sync with the terminal after an aborted redraw / exception = property failure; the session is
 shrunk (fewer steps, simpler layouts) and is the replay."""
 from __future__ import annotations
 
 import copy
 import json
 import random
+import re as _re_mod
 
 import c18lex
 import core
@@ -33,7 +41,10 @@ MODEL_REASON = {2: "layout extracted with urwid's shard functions is not well-fo
                 3: "walk ran out of fuel", 4: "delete commands differ from the model's",
                 5: "_ti_image_cviews differs from the model's", 6: "canvas disguise state differs from the model's",
                 7: "widget disguise states differ from the model's", 8: "z-index allocator differs from the model's single allocator (counter / free set / live widgets' indexes / a class of "
-                   "the widget tree sees its own state)"}
+                   "the widget tree sees its own state)",
+                9: "urwid's resize-pending flag differs from the environment model (SIGWINCH sets it, get_input() clears it)",
+                10: "urwid's record of the canvas its screen buffer holds differs from the environment model (a redraw reaches the "
+                    "terminal unless a resize is pending or the base draw raises; the very canvas drawn last is not drawn again)"}
 SPEC_REASON = {1: "an exception escaped a legitimate redraw", 2: "redraw output is not one BEGIN/END synchronized update",
                3: "_ti_image_cviews is not the set of image views of the canvas (positions from the layout)",
                4: "GHOST: the terminal shows an image placement that the canvas just drawn does not have",
@@ -41,7 +52,11 @@ SPEC_REASON = {1: "an exception escaped a legitimate redraw", 2: "redraw output 
                6: "the z-indexes of the live kitty widgets (of all widget classes) are not pairwise distinct / non-zero / in range, "
                   "or a live widget's index was freed",
                7: "image placements left on the terminal after start / stop / clear (start, clear: on the screen buffer the user sees; "
-                  "stop: on the buffer the screen ran on)"}
+                  "stop: on the buffer the screen ran on)",
+               8: "a placement TRANSMITTED for the canvas carries a z-index that is not the z-index its widget holds (the screen deletes "
+                  "by the widget's), or lies in no tracked view, or two live kitty widgets place their images with the same z-index",
+               9: "after a redraw that urwid aborted (resize pending / the base draw raised) or short-circuited, the terminal shows a "
+                  "placement that the canvas now tracked does not have: the tracking is out of sync with the terminal"}
 
 # ------------------------------------------------------------------ generator
 
@@ -51,6 +66,43 @@ CLASS_NAME = {0: "", 1: "/Sub", 2: "/SubSub", 3: "/Other"}
 
 KINDS = {"kitty": ["kitty", "kitty", "block"], "konsole": ["kitty", "iterm2", "iterm2", "block"],
          "other": ["kitty", "iterm2", "block"]}
+
+
+Z_FIELDS = [0, 1, -1, 2, 5, -7, 2**31 - 1, -(2**31 - 1)]
+
+
+def gen_fmt(rng: random.Random, kind: str, plain=0.45):
+    """a VALID format specifier for a widget of an image of render style `kind`: horizontal / vertical
+    alignment (with padding sizes, which widgets ignore), alpha, and for kitty / iterm2 the style-specific
+    fields: render method L | W, z-index (kitty; documented as ignored by widgets), mix, compression"""
+    if rng.random() < plain:
+        return ""
+    f = rng.choice(["", "", "<", "|", ">", ">7"])
+    if rng.random() < 0.35:
+        f += "." + rng.choice(["^", "-", "_", "^3"])
+    if rng.random() < 0.25:
+        f += rng.choice(["#", "#.3", "#00ff00", "##"])
+    if kind != "block" and rng.random() < 0.75:
+        st = ""
+        c = rng.random()
+        if c < 0.25:
+            st += "L"
+        elif c < 0.35:
+            st += "W"
+        if kind == "kitty" and rng.random() < 0.6:
+            st += f"z{rng.choice(Z_FIELDS)}"
+        if rng.random() < 0.3:
+            st += f"m{rng.randint(0, 1)}"
+        if rng.random() < 0.3:
+            st += f"c{rng.choice([0, 1, 4, 9])}"
+        if st:
+            f += "+" + st
+    return f
+
+
+def gen_spec(rng: random.Random, kind: str, upscale=None):
+    return {"kind": kind, "img": rng.randrange(6), "upscale": (rng.random() < 0.8) if upscale is None else upscale,
+            "cls": rng.choice(CLASSES), "fmt": gen_fmt(rng, kind)}
 
 
 class Gen:
@@ -214,6 +266,24 @@ def gen_pre(rng: random.Random, term: str, cols: int, rows: int):
     return {"op": "pre", "items": items}
 
 
+def gen_how(rng: random.Random, rows: int, alt: bool):
+    """how the base class' draw_screen fails.  A failure in the middle of urwid's writes only with the
+    alternate buffer: without it urwid addresses rows relative to where it believes it left the cursor,
+    which a write that was cut short invalidates (urwid's bookkeeping, outside the property)"""
+    c = rng.random()
+    if c < 0.4:
+        return "size"
+    if c < 0.7 or not alt:
+        return ["content", rng.randrange(rows)]
+    return ["write", rng.choice([1, 2, 3, 5, 8, 13, 30])]
+
+
+def fresh_canvas(L):
+    """the image widget itself as the top-most widget renders to its CACHED canvas object, whose identity
+    the generator cannot follow: a one-item Pile paints the same screen with a new canvas object"""
+    return ["pile", [[["weight", 1], L]]] if L[0] == "img" else L
+
+
 def gen_start(rng: random.Random):
     # urwid's default (MainLoop) is the alternate buffer; alternate_buffer=False is its inline mode
     return {"op": "start", "alt": rng.random() < 0.6}
@@ -226,16 +296,15 @@ def gen_case(rng: random.Random, idx: int, quick: bool):
     names = [chr(ord("a") + i) for i in range(nslots)]
     slots = {}
     for nme in names:
-        slots[nme] = {"kind": rng.choice(KINDS[term]), "img": rng.randrange(6), "upscale": rng.random() < 0.8,
-                      "cls": rng.choice(CLASSES)}
+        slots[nme] = gen_spec(rng, rng.choice(KINDS[term]))
     if all(s["kind"] == "block" for s in slots.values()):
-        slots[names[0]]["kind"] = "kitty"
+        slots[names[0]] = gen_spec(rng, "kitty")
     ksup = True
     if idx % 17 == 16 and term != "konsole":   # kitty protocol unsupported: nothing may be written
         ksup = False
-        for s in slots.values():
-            if s["kind"] == "kitty":
-                s["kind"] = "block"
+        for nme in names:
+            if slots[nme]["kind"] == "kitty":
+                slots[nme] = gen_spec(rng, "block")
     z_start = None
     if idx % 11 == 10:
         z_start = rng.choice([2**31 - 1, -(2**31 - 1), 2**31 - 2, 2**31])
@@ -249,15 +318,15 @@ def gen_case(rng: random.Random, idx: int, quick: bool):
     steps.append({"op": "draw", "layout": layout})
     for _ in range(rng.randint(3, 7 if quick else 10)):
         c = rng.random()
-        if c < 0.55:
+        if c < 0.45:
             layout = mutate(rng, gen, layout)
             steps.append({"op": "draw", "layout": layout})
-        elif c < 0.68:
+        elif c < 0.58:
             layout = gen.box(rng.randint(0, 3), cols, rows)
             steps.append({"op": "draw", "layout": layout})
-        elif c < 0.70:
+        elif c < 0.60:
             steps.append({"op": "redraw"})
-        elif c < 0.76:
+        elif c < 0.66:
             # the public clear_images(): all images or some of the widgets (distinct), at once or
             # queued, then a redraw of the unchanged layout (a new canvas object whose image rows
             # are byte-identical but for the disguise) or of a changed one.  At most ONE call
@@ -271,10 +340,10 @@ def gen_case(rng: random.Random, idx: int, quick: bool):
                 # redraw: urwid returns early); a one-item Pile paints the same screen with a new canvas object
                 layout = ["pile", [[["weight", 1], layout]]]
             steps.append({"op": "draw", "layout": layout})
-        elif c < 0.79:
+        elif c < 0.69:
             steps.append({"op": "clear"})
             steps.append({"op": rng.choice(["redraw", "draw"]), "layout": layout})
-        elif c < 0.83:
+        elif c < 0.73:
             # another session: possibly after other output on the terminal, possibly as a new screen
             # object, started with or without the alternate buffer
             steps.append({"op": "stop"})
@@ -289,12 +358,11 @@ def gen_case(rng: random.Random, idx: int, quick: bool):
             again = not fresh and steps[-1]["alt"] == mode and rng.random() < 0.3
             mode = steps[-1]["alt"]
             steps.append({"op": "redraw"} if again else {"op": "draw", "layout": layout})
-        elif c < 0.90:
+        elif c < 0.80:
             nme = rng.choice(names)
-            steps.append({"op": "new", "slot": nme,
-                          "spec": {"kind": rng.choice(KINDS[term]) if ksup else "block", "img": rng.randrange(6), "upscale": True, "cls": rng.choice(CLASSES)}})
+            steps.append({"op": "new", "slot": nme, "spec": gen_spec(rng, rng.choice(KINDS[term]) if ksup else "block", True)})
             steps.append({"op": "draw", "layout": layout})
-        elif c < 0.95:
+        elif c < 0.85:
             # drop a widget that the next layout no longer uses
             layout2 = gen.box(rng.randint(0, 2), cols, rows)
             used = json.dumps(layout2)
@@ -304,12 +372,61 @@ def gen_case(rng: random.Random, idx: int, quick: bool):
             if unused and len(names) > 1:
                 nme = rng.choice(unused)
                 steps.append({"op": "del", "slot": nme})
-                steps.append({"op": "new", "slot": nme, "spec": {"kind": rng.choice(KINDS[term]) if ksup else "block",
-                                                                 "img": rng.randrange(6), "upscale": True, "cls": rng.choice(CLASSES)}})
-        else:
-            steps.append({"op": "draw_bad", "layout": layout})
+                steps.append({"op": "new", "slot": nme, "spec": gen_spec(rng, rng.choice(KINDS[term]) if ksup else "block", True)})
+        elif c < 0.89:
+            steps.append({"op": "draw_bad", "layout": layout, "how": gen_how(rng, rows, mode)})
             steps.append({"op": "clear"})
             steps.append({"op": "draw", "layout": layout})
+        elif c < 0.96:
+            # a terminal resize signal arrives and redraws are attempted before the main loop handles it:
+            # urwid skips the drawing (the library's bookkeeping runs); then the resize is handled and
+            # the view drawn before comes back - as the very canvas object drawn before (urwid's canvas
+            # cache: nothing was invalidated), or rendered anew - and changes again
+            keep = f"k{len(steps)}"
+            steps.append({"op": "draw", "layout": layout, "save": keep})
+            steps.append({"op": "winch"})
+            other = layout
+            for _ in range(rng.randint(1, 2)):
+                other = mutate(rng, gen, other) if rng.random() < 0.5 else gen.box(rng.randint(0, 2), cols, rows)
+                steps.append({"op": "draw", "layout": other})
+                if rng.random() < 0.15:
+                    steps.append({"op": "api", "slots": [], "now": rng.random() < 0.5})
+                    break
+            steps.append({"op": "resize"})
+            c2 = rng.random()
+            if c2 < 0.55:
+                steps.append({"op": "redraw", "use": keep})
+            elif c2 < 0.8:
+                steps.append({"op": "draw", "layout": layout})
+            else:
+                layout = other
+                steps.append({"op": "draw", "layout": layout})
+            layout = other if rng.random() < 0.5 else mutate(rng, gen, layout)
+            steps.append({"op": "draw", "layout": layout})
+        else:
+            # a redraw in which the base class' draw_screen raises (at once / while reading the canvas /
+            # at one of its writes), and the application carries on: the same canvas object again, a new
+            # canvas, or the canvas object that reached the terminal last
+            keep = f"k{len(steps)}"
+            layout = fresh_canvas(layout)
+            steps.append({"op": "draw", "layout": layout, "save": keep})
+            other = fresh_canvas(mutate(rng, gen, layout) if rng.random() < 0.6 else gen.box(rng.randint(0, 2), cols, rows))
+            steps.append({"op": "draw_bad", "layout": other, "how": gen_how(rng, rows, mode)})
+            c2 = rng.random()
+            if c2 < 0.3:
+                steps.append({"op": "redraw"})
+                layout = other
+            elif c2 < 0.75:
+                layout = fresh_canvas(mutate(rng, gen, other))
+                steps.append({"op": "draw", "layout": layout})
+            else:
+                # urwid returns at once (its screen buffer holds this very canvas object); the failed redraw
+                # and this call's bookkeeping have changed disguises twice: a third change would restore the
+                # bytes (the count hypothesis), so the screen is cleared before the next redraw
+                steps.append({"op": "redraw", "use": keep})
+                steps.append({"op": "clear"})
+                layout = mutate(rng, gen, layout)
+                steps.append({"op": "draw", "layout": layout})
     steps.append({"op": "stop"})
     case = {"term": term, "ksup": ksup, "size": [cols, rows], "z_start": z_start, "slots": slots, "steps": steps}
     assert in_domain(case), case
@@ -447,10 +564,74 @@ def corpus():
             cases.append(dict(base, slots={"a": K}, steps=[
                 pre(("alt", True), ("raw", 1, 1, 5, 2, 0), ("alt", False), ("raw", 4, 2, 5, 1, 3)),
                 st(True), d(lay), E, st(False), d(["img", "a"]), {"op": "clear"}, {"op": "redraw"}, d(ov(3)), d(ov(3, 1)), E]))
+    # every valid widget: format specifiers with a z-index field (documented as ignored by widgets; two widgets
+    # with the same one), the other style-specific fields, alignments, alpha; the widgets move, cover each
+    # other's previous place, disappear
+    def kf(fmt, img=2, cls=0, kind="kitty", upscale=True):
+        return {"kind": kind, "img": img, "upscale": upscale, "cls": cls, "fmt": fmt}
+    for term in ("kitty", "konsole", "other"):
+        base = {"term": term, "ksup": True, "size": [20, 12], "z_start": None}
+        cases.append(dict(base, slots={"a": kf("+z5"), "b": kf("+z5", 3, 1)},
+                          steps=[S, d(stack("a", "b")), d(stack("-", "a", "b")), d(stack("b", "-")), d(stack("-", "-")), E]))
+        second = kf("+Wm1c9", 3, 0, "iterm2") if term == "konsole" else kf(">.^#+Lz1m1c0", 3, 2)
+        cases.append(dict(base, slots={"a": kf("<._#.3+z-1c0", 4, 0, "kitty", False), "b": second, "c": kf("|.-##")},
+                          steps=[S, d(["cols", [[["weight", 1], ["img", "a"]], [["weight", 1], ["img", "b"]]]]),
+                                 d(["cols", [[["weight", 1], ["img", "b"]], [["weight", 1], ["img", "c"]]]]),
+                                 d(["pile", [["pack", ["text", "t"]], [["weight", 1], ["img", "a"]]]]),
+                                 {"op": "new", "slot": "b", "spec": kf("+z2147483647")}, d(stack("b", "c")), d(stack("c")), E]))
+    # redraws that urwid aborts or short-circuits.  A popup-like view B (without the image / with the image
+    # moved) is shown and dismissed while a terminal resize is pending: SIGWINCH, redraw of B (urwid skips the
+    # drawing), the resize is handled, the very canvas object of view A drawn before is drawn again (cached:
+    # nothing was invalidated), then B; the same with the base class' draw raising instead (at once, inside
+    # content(), at a write), followed by the failed canvas again / a new canvas / the canvas drawn last
+    def dk(L, name):
+        return {"op": "draw", "layout": L, "save": name}
+
+    def bad(L, how):
+        return {"op": "draw_bad", "layout": L, "how": how}
+    W_, R_ = {"op": "winch"}, {"op": "resize"}
+    for term in ("kitty", "konsole", "other"):
+        base = {"term": term, "ksup": True, "size": [20, 12], "z_start": None}
+        img = K if term != "konsole" else I
+        va = ["pile", [[["given", 5], ["img", "a"]], [["weight", 1], ["fill", "."]]]]
+        vm = ["pile", [[["given", 3], ["fill", "-"]], [["given", 5], ["img", "a"]], [["weight", 1], ["fill", "."]]]]
+        vb = ["fill", "#"]
+        cases.append(dict(base, slots={"a": img}, steps=[
+            S, dk(va, "A"), W_, d(vb), R_, {"op": "redraw", "use": "A"}, d(vb),
+            dk(va, "A2"), W_, d(vm), d(vb), R_, {"op": "redraw", "use": "A2"}, d(vm), W_, d(va), R_, d(va), d(vb), E]))
+        cases.append(dict(base, slots={"a": K, "b": img}, steps=[
+            {"op": "start", "alt": False}, dk(stack("a", "b"), "A"), W_, d(stack("-", "b")), api([], True), R_, d(stack("-", "b")),
+            W_, {"op": "redraw", "use": "A"}, R_, {"op": "redraw", "use": "A"}, d(stack("b", "-")), E]))
+        cases.append(dict(base, slots={"a": img}, steps=[
+            S, dk(va, "A"), bad(vb, "size"), {"op": "redraw"}, d(va), bad(vm, ["content", 4]), d(vm), d(va),
+            bad(vb, ["write", 5]), d(va), d(vb), dk(va, "A3"), bad(vb, ["content", 0]), {"op": "redraw", "use": "A3"}, {"op": "clear"}, d(va), d(vb), E]))
     # kitty protocol unsupported: nothing is written
     cases.append({"term": "other", "ksup": False, "size": [16, 6], "z_start": None, "slots": {"a": B},
                   "steps": [S, d(["img", "a"]), d(["fill", "."]), {"op": "clear"}, {"op": "redraw"}, E]})
     return cases
+
+
+def enum_abort_cases():
+    """thorough tier: EVERY sequence of 4 (kitty terminal) / 3 (an iTerm2 image on Konsole; inline mode) operations
+    out of: the kept canvas object of view A again, view A rendered anew, view B (no image), view M (the image
+    moved), SIGWINCH, resize handled, a redraw of B raising at once, a redraw of M raising inside content() -
+    after view A (one image) was drawn and its canvas kept; those within the count hypothesis (in_domain)"""
+    import itertools
+    va = ["pile", [[["given", 3], ["img", "a"]], [["weight", 1], ["fill", "."]]]]
+    vm = ["pile", [[["given", 2], ["fill", "-"]], [["given", 3], ["img", "a"]], [["weight", 1], ["fill", "."]]]]
+    vb = ["fill", "#"]
+    ops = {"a": {"op": "redraw", "use": "A"}, "n": {"op": "draw", "layout": va}, "b": {"op": "draw", "layout": vb},
+           "m": {"op": "draw", "layout": vm}, "w": {"op": "winch"}, "r": {"op": "resize"},
+           "x": {"op": "draw_bad", "layout": vb, "how": "size"}, "y": {"op": "draw_bad", "layout": vm, "how": ["content", 2]}}
+    out = []
+    for term, kind, alt, n in (("kitty", "kitty", True, 4), ("konsole", "iterm2", True, 3), ("other", "kitty", False, 3)):
+        for word in itertools.product("anbmwrxy", repeat=n):
+            steps = [{"op": "start", "alt": alt}, {"op": "draw", "layout": va, "save": "A"}] + [ops[ch] for ch in word] + [{"op": "stop"}]
+            case = {"term": term, "ksup": True, "size": [12, 8], "z_start": None,
+                    "slots": {"a": {"kind": kind, "img": 2, "upscale": True, "cls": 0, "fmt": ""}}, "steps": steps}
+            if in_domain(case):
+                out.append(case)
+    return out
 
 
 # ------------------------------------------------------------------ encoding
@@ -518,7 +699,8 @@ class Encoder:
                 + core.coq_list(r.get("class_state", []), lambda c: f"({core.z(c[0])}, {core.coq_list(c[1], core.z)})")
                 + f" {r['cdis']} "
                 + core.coq_list(r["wdis"], lambda e: f"({e[0]}, {e[1]})") + " "
-                + core.coq_list(r["cviews"], self.view_term) + ")")
+                + core.coq_list(r["cviews"], self.view_term)
+                + f" {b(r.get('resized'))} {b(r.get('reached'))})")
 
     def act_term(self, r, i):
         op = r["op"]
@@ -549,6 +731,10 @@ class Encoder:
             return f"(XPre {self.btoks(r['out'], f'step {i} earlier output')})"
         if op == "newscreen":
             return "XNewScreen"
+        if op == "winch":
+            return f"(XWinch {self.btoks(r['out'], f'step {i} output')})"
+        if op == "resize":
+            return f"(XResized {self.btoks(r['out'], f'step {i} output')})"
         if op == "api":
             if r.get("api_skipped"):
                 return "XDel"
@@ -596,17 +782,38 @@ def describe_layout(L):
     return f"{k}({describe_layout(L[1])})"
 
 
+def describe_spec(name, sp):
+    return (f"{name}:{sp['kind']}#{sp['img']}{CLASS_NAME.get(sp.get('cls', 0), '')}"
+            + (f"[format_spec={sp['fmt']!r}]" if sp.get("fmt") else "") + ("" if sp.get("upscale", True) else "[upscale=False]"))
+
+
+def describe_how(st):
+    how = st.get("how", "size")
+    if how == "size":
+        return "(base draw raises: wrong size)"
+    if how[0] == "content":
+        return f"(base draw raises: canvas content() fails at row {how[1]})"
+    return f"(base draw raises: OSError at its write #{how[1]})"
+
+
 def describe(case, upto=None):
     s = f"term={case['term']} size={case['size'][0]}x{case['size'][1]}" + ("" if case.get("ksup", True) else " kitty-unsupported")
     if case.get("z_start"):
         s += f" z_start={case['z_start']}"
-    s += " widgets{" + ",".join(f"{n}:{sp['kind']}#{sp['img']}{CLASS_NAME.get(sp.get('cls', 0), '')}" for n, sp in case["slots"].items()) + "} :: "
+    s += " widgets{" + ",".join(describe_spec(n, sp) for n, sp in case["slots"].items()) + "} :: "
     parts = []
     for st in case["steps"][: (upto + 1 if upto is not None else None)]:
         if st["op"] in ("draw", "draw_bad"):
-            parts.append(f"{st['op']} {describe_layout(st['layout'])}")
+            parts.append(f"{st['op']}{describe_how(st) if st['op'] == 'draw_bad' else ''} {describe_layout(st['layout'])}"
+                         + (f" [canvas kept as {st['save']}]" if st.get("save") else ""))
+        elif st["op"] == "redraw":
+            parts.append(f"redraw of the canvas object kept as {st['use']}" if st.get("use") else "redraw")
+        elif st["op"] == "winch":
+            parts.append("SIGWINCH (resize pending)")
+        elif st["op"] == "resize":
+            parts.append("get_input() -> 'window resize' (resize handled)")
         elif st["op"] == "new":
-            parts.append(f"new {st['slot']}:{st['spec']['kind']}#{st['spec']['img']}{CLASS_NAME.get(st['spec'].get('cls', 0), '')}")
+            parts.append("new " + describe_spec(st["slot"], st["spec"]))
         elif st["op"] == "del":
             parts.append(f"del {st['slot']}")
         elif st["op"] == "api":
@@ -647,6 +854,11 @@ def evaluate(cases, errors, prefix="c18"):
         if ab:
             verdicts[ci] = ("invalid", ab[0]["abort"][:200])
             continue
+        if any(s.get("whole_trimmed") for s in r["steps"]):
+            # a widget rendering with the WHOLE method in a place where its canvas is trimmed: the
+            # documentation requires a method that splits the image across lines there
+            verdicts[ci] = ("outside", "canvas of a WHOLE-method image trimmed")
+            continue
         enc = Encoder(c, r)
         t = enc.term()
         if enc.lex_errors:
@@ -655,7 +867,9 @@ def evaluate(cases, errors, prefix="c18"):
         owner.append(ci)
         terms.append(t)
     if terms:
-        bad, errs = core.coq_shards(prefix, HEADER, terms, "tcase", "bad cases", shard=12)
+        # about 150 kB of terms per shard (12 big sessions; many more of the small enumerated ones)
+        avg = max(1, sum(len(t) for t in terms) // len(terms))
+        bad, errs = core.coq_shards(prefix, HEADER, terms, "tcase", "bad cases", shard=min(200, max(12, 150000 // avg)))
         errors += [e[-600:] for e in errs[:3]]
         if not errs:
             for k in range(len(terms)):
@@ -688,6 +902,10 @@ def shrink_candidates(case, fail_step):
     base = steps[: cut + 1] if 0 <= cut < len(steps) else steps
     for i in range(len(base)):
         out.append(dict(case, steps=base[:i] + base[i + 1:]))
+        # several consecutive steps at once (an episode: SIGWINCH ... resize handled, draw_bad + clear + draw)
+        for n in (2, 3, 4, 6):
+            if i + n <= len(base) - 1:
+                out.append(dict(case, steps=base[:i] + base[i + n:]))
         # a whole stop ... start stretch (one session boundary) at once
         if base[i]["op"] == "stop":
             for j in range(i + 1, len(base)):
@@ -702,6 +920,16 @@ def shrink_candidates(case, fail_step):
         if st["op"] in ("draw", "draw_bad"):
             for sub in sub_layouts(st["layout"]):
                 out.append(dict(case, steps=base[:i] + [dict(st, layout=sub)] + base[i + 1:]))
+    for n, sp in case["slots"].items():
+        if sp.get("fmt"):
+            out.append(dict(case, steps=base, slots=dict(case["slots"], **{n: dict(sp, fmt="")})))
+            if "+" in sp["fmt"] and not sp["fmt"].startswith("+"):
+                out.append(dict(case, steps=base, slots=dict(case["slots"], **{n: dict(sp, fmt="+" + sp["fmt"].partition("+")[2])})))
+    for i, st in enumerate(base):
+        if st["op"] == "new" and st["spec"].get("fmt"):
+            out.append(dict(case, steps=base[:i] + [dict(st, spec=dict(st["spec"], fmt=""))] + base[i + 1:]))
+        if st["op"] == "draw_bad" and st.get("how", "size") != "size":
+            out.append(dict(case, steps=base[:i] + [dict(st, how="size")] + base[i + 1:]))
     used = json.dumps(base)
     for n in list(case["slots"]):
         if f'["img", "{n}"]' not in used and len(case["slots"]) > 1:
@@ -753,23 +981,31 @@ def valid_session(case):
         elif op in ("pre", "newscreen"):
             if started:
                 return False
-        elif op in ("draw", "draw_bad", "redraw", "clear", "api"):
+        elif op in ("draw", "draw_bad", "redraw", "clear", "api", "winch", "resize"):
             if not started:
                 return False
     return True
 
 
 def in_domain(case):
-    """the public clear_images() is exercised within the domain of no_ghosts: at most one call
-    between two redraws (the disguise has three states: the count hypothesis), and the next
-    redraw is one of a NEW canvas object (urwid returns early, writing nothing, when it is
-    handed the very canvas object it drew last)"""
+    """the domain of no_ghosts: the COUNT hypothesis - the disguise has three states, so at most two
+    changes of disguise may hit an image line between two writes of its row, the redraw's own included:
+    at most one public clear_images() call between two redraws, and at most one disguise-changing event
+    (such a call, or a redraw aborted by an exception, whose bookkeeping deletes and changes disguises
+    although nothing is drawn) since urwid's screen buffer was written, when a redraw compares rows
+    with it; after a public clear_images() call the next redraw is one of a NEW canvas object (urwid
+    returns early, writing nothing, when it is handed the very canvas object it drew last)"""
     if not valid_session(case):
         return False
-    pending = 0
+    apis = 0             # public clear_images() calls since the last redraw
+    bumps = 0            # disguise-changing events since urwid's screen buffer was written
+    sb_valid = False     # urwid holds a screen buffer to compare rows with
+    resizing = False     # a SIGWINCH arrived and the resize has not been handled
     inline = False
     last = None          # the layout drawn last, when its canvas may be handed to the screen again
-    for st in case["steps"]:
+    reached = None       # the canvas object urwid's screen buffer holds (a token), while it is valid
+    handed = None        # the canvas object handed to draw_screen last
+    for i, st in enumerate(case["steps"]):
         op = st["op"]
         if op == "start":
             inline = not st.get("alt", True)
@@ -778,24 +1014,55 @@ def in_domain(case):
             # object drawn last, so this is the "redraw" of the same canvas object
             op = "redraw"
         if op == "api":
-            pending += 1
-            if pending > 1:
+            apis += 1
+            bumps += 1
+            if apis > 1:
                 return False
-        elif op == "redraw":
-            if pending:
-                return False
-        elif op in ("draw", "clear", "stop", "start"):
-            pending = 0
+        elif op in ("draw", "redraw"):
+            if op == "draw":
+                if st["layout"][0] == "img" and bumps and sb_valid:
+                    # the image widget's cached canvas may be the very object urwid drew last
+                    return False
+                token = ("kept", st["save"]) if st.get("save") else ("anon", i)
+            else:
+                token = ("kept", st["use"]) if st.get("use") else handed
+            if resizing:
+                pass                 # urwid does not draw; it has no screen buffer (dropped by the signal)
+            elif sb_valid and reached is not None and token == reached:
+                # urwid returns at once: nothing is written, the bookkeeping may change disguises again
+                if apis and not st.get("use"):
+                    return False
+                if token != handed:
+                    bumps += 1   # (the canvas processed last: the bookkeeping is skipped)
+            else:
+                if sb_valid and bumps > 1:
+                    return False
+                sb_valid, bumps, reached = True, 0, token
+            apis = 0
+            handed = token
+        elif op == "draw_bad":
+            if inline and st.get("how", "size") != "size" and st["how"][0] == "write":
+                return False     # see gen_how
+            # the base draw raises: the bookkeeping has run (deletes, disguise changes), urwid's screen
+            # buffer is as it was; a public clear_images() call before it stays pending
+            bumps += 1
+            handed = ("anon", i)
+        elif op in ("clear", "stop", "start", "winch", "newscreen"):
+            apis, bumps, sb_valid, reached = 0, 0, False, None
+        if op == "winch":
+            resizing = True
+        elif op in ("resize", "newscreen"):
+            resizing = False
         if op in ("draw", "draw_bad"):
             last = st["layout"]
         elif op in ("new", "del", "newscreen"):
             last = None if op == "newscreen" else last
-        # draw_bad: the inner draw raises before writing anything: the call stays pending
     return True
 
 
 def size_of(case):
     return (len(case["steps"]), len(json.dumps(case["steps"])), len(case["slots"]), len(json.dumps(case["slots"])))
+
 
 
 def shrink(case, verdict, errors, rounds=4, t_end=None):
@@ -824,7 +1091,13 @@ def run(ctx):
     hist = {"terminal": {}, "start_mode": {"alternate buffer": 0, "inline (alternate_buffer=False)": 0},
             "starts_on_a_terminal_holding_placements": {"alternate buffer": 0, "inline (alternate_buffer=False)": 0},
             "sessions_with_both_modes": 0, "new_screen_objects": 0, "earlier_output_items": {},
-            "public_clear_images_calls": {}, "widget_classes": {}, "sessions_mixing_classes": 0, "steps_per_session": {}, "op": {}, "layout_nodes": {}, "widget_kinds": {},
+            "public_clear_images_calls": {}, "widget_format_specs": {"default": 0, "alignment / alpha only": 0}, "widget_format_spec_fields": {},
+            "widgets_upscale": {"True": 0, "False": 0},
+            "redraws": {"reached the terminal": 0, "aborted: resize pending": 0, "aborted: base draw raised (wrong size)": 0,
+                        "aborted: base draw raised (content() failed)": 0, "aborted: base draw raised (OSError at a write)": 0,
+                        "short-circuited by urwid (same canvas object)": 0},
+            "redraws_of_a_kept_canvas_object": {"after an aborted redraw": 0, "other": 0}, "sigwinch": 0, "resizes_handled": 0,
+            "widget_classes": {}, "sessions_mixing_classes": 0, "steps_per_session": {}, "op": {}, "layout_nodes": {}, "widget_kinds": {},
             "verdict": {}, "views_on_screen": {}, "deletes": {"all": 0, "by_z": 0, "cursor": 0},
             "redraws_with_vanished_views": 0, "non_composite_canvases": 0, "image_lines_in_canvases": 0,
             "image_lines_written": 0, "z_freed": 0, "z_reused": 0, "z_exhausted": 0}
@@ -835,6 +1108,8 @@ def run(ctx):
         n = 36 if ctx.quick else 400
         for i in range(n):
             cases.append(gen_case(ctx.rng, i, ctx.quick))
+        if not ctx.quick:
+            cases += enum_abort_cases()
     verdicts, results = evaluate(cases, errors)
 
     distinct = set()
@@ -845,6 +1120,10 @@ def run(ctx):
         if v[0] == "invalid":
             invalid += 1
             hist["verdict"]["generator-invalid"] = hist["verdict"].get("generator-invalid", 0) + 1
+            continue
+        if v[0] == "outside":
+            hist["verdict"]["outside-documented-use (WHOLE-method image trimmed)"] = \
+                hist["verdict"].get("outside-documented-use (WHOLE-method image trimmed)", 0) + 1
             continue
         if v[0] == "lex":
             failures.append({"signature": core.sig({"lex": v[1], "case": c}),
@@ -857,6 +1136,24 @@ def run(ctx):
         specs = list(c["slots"].values()) + [st["spec"] for st in c["steps"] if st["op"] == "new"]
         for sp in specs:
             hist["widget_kinds"][sp["kind"]] = hist["widget_kinds"].get(sp["kind"], 0) + 1
+            hist["widgets_upscale"][str(bool(sp.get("upscale", True)))] += 1
+            fmt = sp.get("fmt", "")
+            style = fmt.partition("+")[2]
+            if not fmt:
+                hist["widget_format_specs"]["default"] += 1
+            elif not style:
+                hist["widget_format_specs"]["alignment / alpha only"] += 1
+            else:
+                key = f"{sp['kind']} style fields"
+                hist["widget_format_specs"][key] = hist["widget_format_specs"].get(key, 0) + 1
+            import re as _re
+            for fld, name in ((r"[LW]", "method"), (r"z-?\d+", "z-index"), (r"m[01]", "mix"), (r"c\d", "compress")):
+                m = _re.search(fld, style)
+                if m:
+                    k2 = f"{name}:{m.group() if name != 'z-index' else ('z0' if m.group() == 'z0' else 'z<n>')}"
+                    hist["widget_format_spec_fields"][k2] = hist["widget_format_spec_fields"].get(k2, 0) + 1
+            if fmt.partition("+")[0]:
+                hist["widget_format_spec_fields"]["alignment/alpha"] = hist["widget_format_spec_fields"].get("alignment/alpha", 0) + 1
             nm = CLASS_NAME.get(sp.get("cls", 0), "") or "/UrwidImage"
             hist["widget_classes"][nm] = hist["widget_classes"].get(nm, 0) + 1
         if len({sp.get("cls", 0) for sp in specs if sp["kind"] == "kitty"}) > 1:
@@ -892,6 +1189,28 @@ def run(ctx):
         prev_views = None
         prev_free = set()
         nontrivial = False
+        was_resized, since_abort = False, False
+        for s, st in zip(r["steps"][nsetup(c):], c["steps"]):
+            if s["op"] == "winch":
+                hist["sigwinch"] += 1
+            elif s["op"] == "resize":
+                hist["resizes_handled"] += 1
+            if s["op"] in ("draw", "draw_bad", "redraw"):
+                if was_resized:
+                    kind = "aborted: resize pending"
+                elif "exc" in s:
+                    how = st.get("how", "size")
+                    kind = "aborted: base draw raised (" + ("wrong size" if how == "size" else "content() failed" if how[0] == "content"
+                                                            else "OSError at a write") + ")"
+                elif not _re_mod.sub(r"\x1b\[\?2026[hl]|\x1b_Ga=d[^\x1b]*\x1b\\\\", "", s["out"]):
+                    kind = "short-circuited by urwid (same canvas object)"
+                else:
+                    kind = "reached the terminal"
+                hist["redraws"][kind] += 1
+                if st.get("use"):
+                    hist["redraws_of_a_kept_canvas_object"]["after an aborted redraw" if since_abort else "other"] += 1
+                since_abort = kind.startswith("aborted") or (since_abort and kind.startswith("short"))
+            was_resized = bool(s.get("resized"))
         for s in r["steps"]:
             if s["op"] in ("draw", "draw_bad", "redraw"):
                 nv = len(s["cviews"])
@@ -939,7 +1258,7 @@ def run(ctx):
         if ctx.replay or _time.time() > t_end:
             small, sv = c, v
         else:
-            small, sv = shrink(c, v, errors, rounds=4 if ctx.quick else 8, t_end=t_end)
+            small, sv = shrink(c, v, errors, rounds=10 if ctx.quick else 14, t_end=t_end)
         step = sv[2] - nsetup(small)
         where = (f"at step {step} of: {describe(small, step)}" if step >= 0 else
                  f"after constructing widget `{list(small['slots'])[sv[2]]}` of: {describe(small, -1)}")
@@ -960,7 +1279,8 @@ def run(ctx):
     samples = [describe(c) for c in cases[:2]] + [describe(c) for c in cases[len(corpus()):len(corpus()) + 3]]
     return {
         "corr_name": "sessions of a real UrwidImageScreen on a buffer (started with / without the alternate buffer, on terminals "
-                     "already holding placements); output lexed and executed on the two-buffer placement-level "
+                     "already holding placements; widgets with arbitrary valid format specifiers; redraws aborted by a pending SIGWINCH "
+                     "resize or by the base draw raising, redraws of kept canvas objects); output lexed and executed on the two-buffer placement-level "
                      "terminal in Coq vs. model (deletes, _ti_image_cviews, disguise, allocator) and vs. the canvas just drawn",
         "evaluations": sum(1 for v in verdicts if v and isinstance(v[0], int)),
         "distinct_nontrivial": len(distinct),
@@ -981,7 +1301,20 @@ def run(ctx):
                 "widget possibly several times) followed by 3-10 operations: a mutation of the layout (overlay moved / "
                 "resized / its top replaced, list box scrolled, item inserted / removed, image swapped), a new layout, redraw "
                 "of the same canvas, the PUBLIC clear_images() (all images or one / two widgets, now=True or queued) followed by a redraw of the unchanged or a changed layout, clear()+redraw, stop [+ more foreign output] [+ new screen object] + start in either mode, a widget replaced by a new one, a widget dropped and "
-                "collected, a redraw whose inner draw raises.  Non-trivial: distinct sessions judged 0 in which at least one "
+                "collected, a redraw whose inner draw raises (wrong size / the canvas' content() failing at a row / OSError at one of the "
+                "base class' writes) followed by clear()+redraw.  EVERY VALID WIDGET: 55% of the widgets are constructed with a non-default "
+                "format specifier: horizontal / vertical alignment with padding sizes, alpha (#, #.3, #rrggbb, ##) and for kitty / iterm2 "
+                "images the style-specific fields render method L|W (W: sessions in which such a canvas ends up trimmed are set aside as "
+                "outside the documented use), z<n> (kitty; 0, 1, -1, 2, 5, -7, +-(2^31-1): values the allocator itself hands out "
+                "included), m0|1, c0|1|4|9; upscale False 20%.  REDRAWS THAT URWID ABORTS OR SHORT-CIRCUITS (7% + 4% of the operations, and "
+                "3 corpus sessions per terminal): the canvas object drawn is kept, a real SIGWINCH is raised, 1-2 redraws of other layouts "
+                "are attempted (urwid skips the drawing) possibly with a public clear_images() call, get_input() reports the resize, then "
+                "the KEPT canvas object is drawn again (55%) or the layout rendered anew, then the layout changes again; and: the kept "
+                "canvas, a redraw in which the base draw raises, then the failed canvas object again / a new canvas / the kept canvas "
+                "object (short-circuited by urwid).  Thorough tier: additionally EVERY sequence of 4 (kitty) / 3 (iTerm2 image on "
+                "Konsole; inline mode) operations out of {kept canvas object of A again, A rendered anew, B without the image, M "
+                "with the image moved, SIGWINCH, resize handled, redraw of B raising at once, redraw of M raising inside content()} "
+                "after view A was drawn, within the count hypothesis.  Non-trivial: distinct sessions judged 0 in which at least one "
                 "redraw made image views vanish.",
         "samples": samples,
         "histogram": hist,
@@ -1009,6 +1342,17 @@ def run(ctx):
             "bookkeeping of that row relies on the canvas carrying a cursor, so the canvases of inline sessions carry one at "
             "(0, 0) (harness/impl/impl_c18.py WithCursor); the session theorems are stated with that row as row 0",
             "other programs write to the terminal, and the screen object is replaced, only while the screen is stopped",
+            "(U4) urwid's draw_screen does not draw while a resize is pending (SIGWINCH until get_input() has reported 'window resize'; "
+            "the signal also drops its screen buffer), nor when it raises before its output is written; it returns at once when handed "
+            "the very canvas object its screen buffer holds (model/ScreenAbort.v; the run-time comparison checks this environment model "
+            "against urwid's own _resized / _screen_buf_canvas after every step).  A SIGWINCH arriving DURING a draw_screen call, and "
+            "an OSError in the middle of urwid's writes, are exercised by the runs only where stated (write failures), not modelled",
+            "(R) the renderer transmits every placement with the z_index style argument it is given (C01/C03's matter); that the widget "
+            "passes ITS z-index whatever the format specifier says is proved on the model (C18_widget_places_with_own_z_index) and "
+            "checked on the transmitted bytes of every canvas",
+            "after a redraw that did not reach the terminal, or that urwid short-circuits after a public clear_images() call / an aborted "
+            "redraw deleted images of that very canvas object, only 'no placement that the canvas now tracked does not have' is demanded "
+            "(the images stay deleted until a new canvas is drawn: urwid does not draw the canvas object it drew last again)",
             "KittyImage / ITerm2Image support is as the test-suite stubs say (GraphicsImage._supported = True; "
             "ITerm2Image._TERM set as is_supported() would on konsole / wezterm)",
             "the theorems are about the code AFTER pending_fixes/C18_non_composite_canvas.diff and "
